@@ -61,6 +61,8 @@ func showAV(v AV) string {
 		return fmt.Sprint(v.N == 1)
 	case "nil":
 		return "nil"
+	case "markup":
+		return "safe(" + strconv.Quote(piecesText(v.L)) + ")"
 	case "fix":
 		return strconv.FormatFloat(float64(v.N)/1000, 'f', -1, 64)
 	case "time":
